@@ -55,9 +55,17 @@ def bounded(fl, FA, seed=0, n=300):
         xs = np.sort(rng.uniform(-5, 5, size=k)); ys = rng.uniform(0, 1, size=k)
         if len(set(xs.tolist())) != k:
             continue
+        dup = None
+        if rng.random() < 0.3:
+            # a vertical edge: the same x twice with two different y (the value AT the edge is not fixed by the definition and is not judged; every other x is)
+            j = int(rng.integers(0, k))
+            dup = float(xs[j])
+            xs = np.insert(xs, j, xs[j]); ys = np.insert(ys, j, rng.uniform(0, 1)); k += 1
         h = float(rng.choice([1.0, 0.5, rng.uniform(0.01, 1.0)]))
         t = fl.Discrete("d", fl.Discrete.to_xy(xs.tolist(), ys.tolist()), height=h)
-        pts = list(xs) + [np.nextafter(v, np.inf) for v in xs] + [np.nextafter(v, -np.inf) for v in xs] + list((xs[:-1] + xs[1:]) / 2) + [xs[0] - 1, xs[-1] + 1, np.inf, -np.inf, np.nan]
+        pts = list(xs) + [np.nextafter(v, np.inf) for v in xs] + [np.nextafter(v, -np.inf) for v in xs] + [v for v in (xs[:-1] + xs[1:]) / 2] + [xs[0] - 1, xs[-1] + 1, np.inf, -np.inf, np.nan]
+        if dup is not None:
+            pts = [v for v in pts if not v == dup]
         arr = np.array(pts, dtype=float)
         got = np.asarray(t.membership(arr), dtype=float)
         got2 = np.asarray(t.membership(arr.reshape(-1, 1)), dtype=float)
